@@ -2239,6 +2239,21 @@ def split_new_tuple_assigns(fnode, base_texts, stats):
           stats['tuples_split'] = stats.get('tuples_split', 0) + 1
           i += len(new)
           continue
+        if len(set(texts)) == len(texts) and not any(isinstance(v, ast.Starred) for v in st.value.elts):
+          # general form: every right-hand side is evaluated first (into a temporary unless it is a constant), then the targets are stored left to right
+          pre, post = [], []
+          for k, (t, v) in enumerate(zip(tg, st.value.elts)):
+            if isinstance(v, ast.Constant):
+              val = v
+            else:
+              tmp = '__tv%d_%d' % (k, abs(hash(ast.unparse(st))) % 10000)
+              pre.append(ast.Assign(targets=[ast.Name(id=tmp, ctx=ast.Store())], value=v, lineno=st.lineno, col_offset=st.col_offset))
+              val = ast.Name(id=tmp, ctx=ast.Load())
+            post.append(ast.Assign(targets=[t], value=val, lineno=st.lineno, col_offset=st.col_offset))
+          b[i:i + 1] = pre + post
+          stats['tuples_split'] = stats.get('tuples_split', 0) + 1
+          i += len(pre) + len(post)
+          continue
       i += 1
   ast.fix_missing_locations(fnode)
 
@@ -2794,6 +2809,44 @@ def _hoistable(root, target):
   return True
 
 
+def _first_evaluated(ex, use):
+  """Is `use` (a Name inside expression ex) evaluated before anything else of ex that has effects?  True for the leftmost leaf positions:
+  the first argument of the outermost calls, the iterable of the first generator of a comprehension, the left operand of operators."""
+  n = ex
+  while True:
+    if n is use:
+      return True
+    if isinstance(n, ast.Call):
+      if isinstance(n.func, ast.Attribute) and any(x is use for x in ast.walk(n.func)):
+        n = n.func.value
+      elif n.args and not isinstance(n.func, ast.Attribute) or (n.args and isinstance(n.func, ast.Attribute) and _is_pure_chain(n.func.value)):
+        n = n.args[0]
+      else:
+        return False
+    elif isinstance(n, (ast.GeneratorExp, ast.ListComp, ast.SetComp)):
+      n = n.generators[0].iter
+    elif isinstance(n, ast.DictComp):
+      n = n.generators[0].iter
+    elif isinstance(n, ast.BinOp):
+      n = n.left
+    elif isinstance(n, ast.Compare):
+      n = n.left
+    elif isinstance(n, ast.BoolOp):
+      n = n.values[0]
+    elif isinstance(n, ast.UnaryOp):
+      n = n.operand
+    elif isinstance(n, ast.Subscript):
+      n = n.value
+    elif isinstance(n, ast.Attribute):
+      n = n.value
+    elif isinstance(n, ast.Starred):
+      n = n.value
+    elif isinstance(n, ast.IfExp):
+      n = n.test
+    else:
+      return False
+
+
 def _expr_helper(helper):
   body = [s for s in helper.body if not (isinstance(s, ast.Expr) and isinstance(s.value, ast.Constant))]
   if len(body) == 1 and isinstance(body[0], ast.Return) and body[0].value is not None:
@@ -3071,6 +3124,18 @@ def _inline_in(d, new, is_method, cls_name, stats):
             ex = _expr_helper(h)
             if ex is not None:
               b = _bind(h, node, is_method and not _is_static(h))
+              if b is not None and b[1] and len(h.args.posonlyargs + h.args.args) - (1 if (is_method and not _is_static(h)) else 0) == 1:
+                # a one-parameter helper whose parameter is read exactly once, as the first thing its expression evaluates
+                # (`sum(1 for n in nodes if ..)`, `len(x)`): the argument expression takes its place
+                pa = b[1][0]
+                pn = pa.targets[0].id
+                uses = [x for x in ast.walk(ex) if isinstance(x, ast.Name) and x.id == pn]
+                if len(uses) == 1 and len(b[1]) == 1 and _first_evaluated(ex, uses[0]) and not any(isinstance(x, (ast.Yield, ast.YieldFrom, ast.Await, ast.Lambda)) for x in ast.walk(pa.value)):
+                  sub = dict(b[0])
+                  sub[pn] = pa.value
+                  changed[0] = True
+                  stats['inlined'] = stats.get('inlined', 0) + 1
+                  return ast.copy_location(_Subst(sub).visit(copy.deepcopy(ex)), node)
               if b is not None and not b[1]:
                 changed[0] = True
                 stats['inlined'] = stats.get('inlined', 0) + 1
